@@ -681,7 +681,7 @@ pub fn gen_world(opts: &WorldOpts) -> World {
                 let (b, hot) = module_symbols(arch, os, &m, adv);
                 m.sym = Some(b);
                 m.hot = hot;
-                m.sym_kind = "consistent";
+                m.sym_kind = if chance("dump.sym.transient_load_error", 1, 8) { "transient load error" } else { "consistent" };
             }
             5 if opts.hostile_symbols && chance("dump.sym.load_error", 1, 2) => {
                 // the supplier fails to read this module's symbols (I/O error)
@@ -695,7 +695,33 @@ pub fn gen_world(opts: &WorldOpts) -> World {
             6 if opts.hostile_symbols => {
                 let (mut b, hot) = module_symbols(arch, os, &m, adv);
                 m.hot = hot;
-                symgen::corrupt(&mut b);
+                if chance("dump.sym.long_line_tail", 1, 4) {
+                    // a line above the parser's 160 KiB cap somewhere among the records, and
+                    // (mostly) a last line without its newline: the recovery path of the
+                    // streaming parser meets the end of the input
+                    let len = range("dump.sym.long_line.len", 163_000, 420_000) as usize;
+                    let mut long: Vec<u8> = b"PUBLIC 1000 0 ".to_vec();
+                    long.resize(len, b'L');
+                    long.push(b'\n');
+                    let nl: Vec<usize> = b.iter().enumerate().filter(|(_, &c)| c == b'\n').map(|(i, _)| i + 1).collect();
+                    let at = match ch("dump.sym.long_line.where", 3) {
+                        // right before the last line: its newline comes with the last buffer fill
+                        0 if nl.len() >= 2 => nl[nl.len() - 2],
+                        1 if !nl.is_empty() => nl[range("dump.sym.long_line.at", 0, nl.len() as u64 - 1) as usize],
+                        _ => b.len(),
+                    };
+                    b.splice(at..at, long);
+                    if !chance("dump.sym.long_line.terminated", 1, 4) {
+                        while matches!(b.last(), Some(b'\n') | Some(b'\r')) {
+                            b.pop();
+                        }
+                        if chance("dump.sym.long_line.extra_tail", 1, 2) {
+                            b.extend_from_slice(b"\nPUBLIC 2000 0 unterminated_tail");
+                        }
+                    }
+                } else {
+                    symgen::corrupt(&mut b);
+                }
                 m.sym = Some(b);
                 m.sym_kind = "corrupted";
             }
